@@ -31,12 +31,12 @@ prop(
         "rten_tensor::layout::is_valid_permutation",
         "rten_tensor::tensor::TensorBase::<Vec<u8>, NdLayout<2>>::{has_capacity, expanded_layout} (capacity expansion)",
     ],
-    bounds=("soundness: concrete shape family (ranks 1-3 quick, +rank 4 thorough; sizes 1..4), strides fully "
+    bounds=("soundness: concrete shape family (ranks 1-3 quick, +rank 4 thorough; sizes 1..4; 4x4x4 and 3x2x3x2 exceeded 1 h and were dropped), strides fully "
             "symbolic 64-bit, both indices symbolic; emptiness: shapes with a 0 dim, strides symbolic; "
             "completeness: contiguous parent of concrete shape, child sizes concrete, per-axis step symbolic 1..7 "
             "(window inside parent), every axis permutation; huge concrete shapes (element counts >= 2^64, e.g. [2,2^63,2], "
             "[2^32,2^32], [usize::MAX]) with symbolic strides and the corner indices {0,1,size-2,size-1} of each axis; "
-            "capacity expansion of contiguous and row-padded 2x2/2x3 owned tensors with spare capacity (axis and new size "
+            "capacity expansion of contiguous 2x2/2x3/1x4 owned tensors with spare capacity (axis and new size "
             "concrete per harness, both grown-layout indices symbolic); unwind 10-20"),
     outside=("ranks > 4, sizes > 4 (rank<=3) / > 3 (rank 4), DynLayout's SmallVec path (same generic function, "
              "instantiated for [usize;N] here), reshape-derived layouts (reshape of a contiguous layout is "
@@ -173,7 +173,7 @@ prop(
         "NdLayout<2> -> NdLayout<3> BroadcastLayout::broadcast, layout::broadcast_strides, Layout::can_broadcast_to",
         "NdLayout<3>::{split, slice_axis, index_axis}, Layout::min_data_len",
         "NdLayout<2>::insert_dim, NdLayout<3>::remove_dim, Layout::reshaped_for_view / reshaped_for_copy",
-        "layout::merge_axes",
+        "layout::merge_axes (thorough, shape [1,3,2] only)", "NdLayout<3>::move_axis (via DynLayout::move_axis)",
     ],
     bounds=("parents of concrete shape (rank 1-3, sizes <= 5) with contiguous, transposed or stepped strides; slice items fully "
             "symbolic (index or range, start/end/step in (-2^40, 2^40); full isize range for the rank-1 thorough harness); "
